@@ -340,16 +340,29 @@ impl Compiler {
     }
 
     /// Pop a loop context and patch break jumps
-    fn pop_loop(&mut self) -> Option<LoopContext> {
-        let ctx = self.loop_stack.pop()?;
+    fn pop_loop(&mut self) -> Result<(), JsError> {
+        let Some(ctx) = self.loop_stack.pop() else {
+            return Ok(());
+        };
         if let Some(ref label) = ctx.label {
             self.labels.remove(label);
+        }
+        // A continue whose target never became known named a statement that is not a loop;
+        // its jump would otherwise keep the placeholder target 0
+        if !ctx.continue_jumps.is_empty() {
+            return Err(JsError::syntax_error_simple(match &ctx.label {
+                Some(label) => format!(
+                    "Illegal continue statement: '{}' does not denote an iteration statement",
+                    label
+                ),
+                None => "Illegal continue statement".to_string(),
+            }));
         }
         // Patch all break jumps to current position
         for jump in &ctx.break_jumps {
             self.builder.patch_jump(*jump);
         }
-        Some(ctx)
+        Ok(())
     }
 
     /// Set loop variable redirects for for-loop update expressions.
